@@ -429,6 +429,19 @@ func (u *clientUpdater) updateService(ctx context.Context, service ServiceDefini
 	if err != nil {
 		return fmt.Errorf("failed to wipe on testSeed change (service=%s, testSeed=%s): %w", service.ID, seed, err)
 	}
+	// The wipe resets the local timestamp to 0. The response was then requested with a timestamp of the previous list:
+	// it lacks the presentations of the new list up to that timestamp. Applying it would also adopt the server's timestamp,
+	// so these would never be retrieved. Discard it; the next update starts over from timestamp 0.
+	newTimestamp, err := u.store.getTimestamp(service.ID)
+	if err != nil {
+		return err
+	}
+	if newTimestamp != currentTimestamp {
+		log.Logger().
+			WithField("discoveryService", service.ID).
+			Debugf("Local copy was reset (timestamp %d -> %d), retrieving the complete list at the next update", currentTimestamp, newTimestamp)
+		return nil
+	}
 	for _, presentation := range presentations {
 		// Check if the presentation already exists
 		credentialSubjectID, err := credential.PresentationSigner(presentation)
